@@ -406,6 +406,54 @@ fn extreme_scalar(rng: &mut Rng) -> Vec<u8> {
     }
 }
 
+/// Date-time spellings, valid and damaged character by character (digits of other scripts, wide
+/// characters whose low byte looks like a digit or a separator, over-long fields), bare for the
+/// standalone parser and behind the private marker key for the serde route.
+fn datetime_string(rng: &mut Rng) -> Vec<u8> {
+    const ODD: &[char] = &[
+        '\u{ff10}', '\u{ff11}', '\u{ff19}', '\u{0660}', '\u{0663}', '\u{0669}', '\u{0966}', '\u{00b2}', '\u{00b9}', '\u{00bd}', '\u{2168}', '\u{3007}', '\u{1d7ce}', '\u{1d7ff}',
+        '\u{ff1a}', '\u{ff0d}', '\u{2212}', '\u{ff34}', '\u{ff3a}', '\u{0130}', '\u{212a}', '\u{e9}', '\u{0131}', '\u{0230}', '\u{0239}', '\u{013a}', '\u{012d}', '\u{0154}', '\u{015a}',
+        '\u{1f600}', '\u{0}', '\u{7f}', '\u{80}', '\u{a0}', '\u{feff}', '\u{10ffff}',
+    ];
+    let v = gen::gen_datetime(rng);
+    let mut cs: Vec<char> = gen::render_datetime(rng, &v).chars().collect();
+    for _ in 0..rng.below(4) {
+        if cs.is_empty() {
+            break;
+        }
+        let i = rng.below(cs.len());
+        match rng.below(9) {
+            0 | 1 => cs[i] = *rng.pick(ODD),
+            2 => cs[i] = *rng.pick(&['0', '9', '5', ':', '-', '+', '.', 'T', 't', ' ', 'Z', 'z', '_', 'e', '/']),
+            3 => {
+                cs.remove(i);
+            }
+            4 => cs.insert(i, *rng.pick(&['0', '9', '1', ':', '-', '.', ' ', 'T'])),
+            5 => cs.truncate(i),
+            6 => {
+                // over-long digit run
+                let d = *rng.pick(&['0', '9', '1']);
+                for _ in 0..1 + rng.below(24) {
+                    cs.insert(i, d);
+                }
+            }
+            7 => cs.insert(i, *rng.pick(ODD)),
+            _ => {
+                let tail: Vec<char> = rng.pick(&["Z", "z", "+00:00", "-23:59", "+24:00", "+1:00", ".0", ".999999999999", ":00", " ", "T", "T00:00:00"]).chars().collect();
+                cs.extend(tail);
+            }
+        }
+    }
+    let s: String = cs.into_iter().collect();
+    let q = if s.chars().any(|c| c == '\'' || (c.is_control() && c != '\t')) { format!("{s:?}") } else { format!("'{s}'") };
+    match rng.below(8) {
+        0 => format!("\"$__toml_private_datetime\" = {q}").into_bytes(),
+        1 => format!("d = {{ \"$__toml_private_datetime\" = {q} }}").into_bytes(),
+        2 => format!("d = {s}\n").into_bytes(),
+        _ => s.into_bytes(),
+    }
+}
+
 impl Check for C04 {
     fn id(&self) -> &'static str {
         "C04"
@@ -424,6 +472,7 @@ impl Check for C04 {
             ("render".into(), 20_000 * k),
             ("random-bytes".into(), 20_000 * k),
             ("value-fragments".into(), 30_000 * k),
+            ("datetime-strings".into(), 40_000 * k),
         ]
     }
     fn run(&mut self, ctx: &mut Ctx, workload: &str, index: u64, rng: &mut Rng) {
@@ -505,6 +554,7 @@ impl Check for C04 {
                     }
                 }
             }
+            "datetime-strings" => datetime_string(rng),
             other => {
                 ctx.inconclusive(format!("unknown workload {other}"));
                 return;
